@@ -347,3 +347,45 @@ EQUIVALENTS = [{'files': [('oneliner/expr_unparse.py', '        elif ord(i) > 25
   'id': 'm43',
   'props': ['C07'],
   'why': 'behaviour-preserving by construction (pilot survivor)'}]
+
+# --- behaviour-preserving refactorings that must stay silent (robustness of the analyser) ----
+_ALL = ["C%02d" % i for i in range(1, 18)]
+EQUIVALENTS += [
+    {"id": "e01", "props": ["C03", "C15", "C11"], "why": "driver wraps when >= (more parentheses, still correct)",
+     "files": [("oneliner/expr_unparse.py", "if inner_node.node_precedence > inner_node.outer_precedence:", "if inner_node.node_precedence >= inner_node.outer_precedence:")]},
+    {"id": "e02", "props": ["C05", "C07", "C02", "C09", "C01"], "why": "rename a local of PendingWhile.get_result",
+     "files": [("oneliner/pending_nodes.py", "        while_loop_final: list[expr] = []", "        final_nodes: list[expr] = []"),
+               ("oneliner/pending_nodes.py", "            while_loop_final.append(\n                NamedExpr(\n                    target=self.flow_ctrl_break_expr,", "            final_nodes.append(\n                NamedExpr(\n                    target=self.flow_ctrl_break_expr,"),
+               ("oneliner/pending_nodes.py", "        while_loop_final.append(while_loop_body)", "        final_nodes.append(while_loop_body)"),
+               ("oneliner/pending_nodes.py", "            while_loop_final.append(while_loop_orelse)\n\n        return while_loop_final", "            final_nodes.append(while_loop_orelse)\n\n        return final_nodes")]},
+    {"id": "e03", "props": ["C01", "C07", "C02", "C06"], "why": "extract a helper method that builds the conditional expression",
+     "files": [("oneliner/pending_nodes.py", "        else:  # if_style==\"if_expr\"\n            return [IfExp(test=test, body=body, orelse=orelse)]", "        else:  # if_style==\"if_expr\"\n            return [self._as_ifexp(test, body, orelse)]\n\n    def _as_ifexp(self, test: expr, body: expr, orelse: expr) -> expr:\n        node = IfExp(test=test, body=body, orelse=orelse)\n        return node")]},
+    {"id": "e04", "props": ["C03", "C15", "C04"], "why": "first rung of the precedence ladder written as a literal",
+     "files": [("oneliner/expr_unparse.py", "enum = itertools.count()\nPREC_NAME = next(enum)", "PREC_NAME = 0\nenum = itertools.count(1)")]},
+    {"id": "e05", "props": ["C05", "C09", "C02"], "why": "build the flag assignment through a local variable",
+     "files": [("oneliner/pending_nodes.py", "        if isinstance(self.loop, PendingWhile):\n            return_value.append(\n                NamedExpr(\n                    target=self.loop.flow_ctrl_break_expr,\n                    value=Constant(value=True),\n                )\n            )", "        if isinstance(self.loop, PendingWhile):\n            set_flag = NamedExpr(\n                target=self.loop.flow_ctrl_break_expr,\n                value=Constant(value=True),\n            )\n            return_value.append(set_flag)")]},
+    {"id": "e06", "props": ["C05", "C10", "C09"], "why": "reorder independent statements of a constructor",
+     "files": [("oneliner/pending_nodes.py", "        self.flow_ctrl_wrapped_iter_expr = Name(id=ol_name(OL_WRAPPED_ITER))\n        self.flow_ctrl_interrupt_expr = Name(id=ol_name(OL_INTERRUPT))\n        self.flow_ctrl_interrupt_used = False\n        self.interrupt_node_bodies = []", "        self.interrupt_node_bodies = []\n        self.flow_ctrl_interrupt_used = False\n        self.flow_ctrl_interrupt_expr = Name(id=ol_name(OL_INTERRUPT))\n        self.flow_ctrl_wrapped_iter_expr = Name(id=ol_name(OL_WRAPPED_ITER))")]},
+    {"id": "e07", "props": ["C06", "C02", "C09", "C13"], "why": "decision list of NamespaceGlobal-less class written with early returns",
+     "files": [("oneliner/namespaces.py", "        if name in self.inner_nonlocal_names:\n            return Subscript(\n                value=self.nonlocal_dict_expr,\n                slice=Constant(value=name),\n                ctx=Load(),\n            )\n        elif name in self.outer_nonlocal_map:", "        if name in self.inner_nonlocal_names:\n            return Subscript(\n                value=self.nonlocal_dict_expr,\n                slice=Constant(value=name),\n                ctx=Load(),\n            )\n        if name in self.outer_nonlocal_map:")]},
+    {"id": "e08", "props": ["C13", "C02", "C06", "C09"], "why": "slice helper uses a nested def instead of a lambda",
+     "files": [("oneliner/utils.py", "    _slice_value = lambda v: Constant(None) if v is None else v\n", "    def _slice_value(v):\n        if v is None:\n            return Constant(None)\n        return v\n\n")]},
+    {"id": "e09", "props": ["C08", "C01", "C17", "C10"], "why": "rename the dispatch table",
+     "files": [("oneliner/convert.py", "ast2pending: dict[type[ast.AST], type[PendingNode]] = {", "DISPATCH: dict[type[ast.AST], type[PendingNode]] = {"),
+               ("oneliner/convert.py", "            return ast2pending[type(node)](", "            return DISPATCH[type(node)](")]},
+    {"id": "e10", "props": ["C16", "C10"], "why": "rename variables of the command line",
+     "files": [("oneliner/__main__.py", "converted = oneliner.convert_code_string(script, configs=cfg)", "result_text = oneliner.convert_code_string(script, configs=cfg)"),
+               ("oneliner/__main__.py", "        outfile.write(converted)\nelse:\n    print(converted)", "        outfile.write(result_text)\nelse:\n    print(result_text)")]},
+    {"id": "e11", "props": ["C03", "C15"], "why": "slot precedences through local variables",
+     "files": [("oneliner/expr_unparse.py", "    body = yield PREC_IFEXP_SLOT_LEFT, node.body\n    test = yield PREC_IFEXP_SLOT_LEFT, node.test", "    left_slot = PREC_IFEXP_SLOT_LEFT\n    body = yield left_slot, node.body\n    test = yield left_slot, node.test")]},
+    {"id": "e12", "props": ["C05", "C11"], "why": "iterate over a copy of the loop stack",
+     "files": [("oneliner/pending_nodes.py", "        self.nsp.return_cnt += 1\n        for loop in self.nsp.loop_stack:", "        self.nsp.return_cnt += 1\n        for loop in list(self.nsp.loop_stack):")]},
+    {"id": "e13", "props": ["C07", "C11", "C17"], "why": "reversed() written as a [::-1] slice",
+     "files": [("oneliner/pending_nodes.py", "        for dec_expr in reversed(self.node.decorator_list):", "        for dec_expr in self.node.decorator_list[::-1]:")]},
+    {"id": "e14", "props": ["C16", "C10"], "why": "descriptor validates through a local alias of the allowed list",
+     "files": [("oneliner/config.py", "        if isinstance(self.tp, list):\n            if value not in self.tp:", "        allowed = self.tp\n        if isinstance(allowed, list):\n            if value not in allowed:")]},
+    {"id": "e15", "props": ["C14", "C02", "C09"], "why": "from-list built with a comprehension",
+     "files": [("oneliner/pending_nodes.py", "        from_list: list[expr] = []\n        for _alias in self.node.names:\n            from_list.append(Constant(value=_alias.name))", "        from_list: list[expr] = [Constant(value=_alias.name) for _alias in self.node.names]")]},
+    {"id": "e16", "props": ["C12", "C07", "C02"], "why": "class keywords collected with append in an else branch",
+     "files": [("oneliner/pending_nodes.py", "                metaclass_expr = expr_transf(self.nsp, _keyword.value)\n                continue\n            class_keywords.append(", "                metaclass_expr = expr_transf(self.nsp, _keyword.value)\n                continue\n            else:\n                pass\n            class_keywords.append(")]},
+]
